@@ -4,10 +4,12 @@
 // that copy, so every lock operation of the broker passes through here.
 //
 // Reported (each with the acquiring site and, where it applies, the site of the earlier acquisition):
-//   reentrant-rlock  a goroutine takes a read lock it already holds (deadlocks as soon as a writer queues in between)
-//   self-deadlock    a goroutine takes a lock (any mode) it already holds in write mode, or a write lock it holds in read mode
-//   wait-cycle       a goroutine about to block on a lock whose holders (or queued writers) are themselves blocked on a
-//                    lock that this goroutine holds: a real deadlock, detected without waiting for a timeout
+//
+//	reentrant-rlock  a goroutine takes a read lock it already holds (deadlocks as soon as a writer queues in between)
+//	self-deadlock    a goroutine takes a lock (any mode) it already holds in write mode, or a write lock it holds in read mode
+//	wait-cycle       a goroutine about to block on a lock whose holders (or queued writers) are themselves blocked on a
+//	                 lock that this goroutine holds: a real deadlock, detected without waiting for a timeout
+//
 // The monitor's own state lives under one mutex and is updated together with the operation it shadows.
 package lockmon
 
@@ -38,19 +40,19 @@ type waiting struct {
 
 var (
 	mu       sync.Mutex
-	heldBy   = map[int64][]held{}        // goroutine -> locks held
+	heldBy   = map[int64][]held{}          // goroutine -> locks held
 	holders  = map[uintptr]map[int64]int{} // lock -> goroutine -> count (read holders may be several)
-	wholder  = map[uintptr]int64{}       // lock -> goroutine holding it in write mode
-	waitOn   = map[int64]waiting{}       // goroutine -> what it is blocked on
+	wholder  = map[uintptr]int64{}         // lock -> goroutine holding it in write mode
+	waitOn   = map[int64]waiting{}         // goroutine -> what it is blocked on
 	siteCnt  = map[string]int64{}
 	reported = map[string]bool{}
 	nReports atomic.Int64
 
-	yieldPct  = envInt("LOCKMON_YIELD", 0)
-	prng      atomic.Uint64
-	logPath   = os.Getenv("LOCKMON_LOG")
-	logMu     sync.Mutex
-	ops       atomic.Int64
+	yieldPct = envInt("LOCKMON_YIELD", 0)
+	prng     atomic.Uint64
+	logPath  = os.Getenv("LOCKMON_LOG")
+	logMu    sync.Mutex
+	ops      atomic.Int64
 )
 
 func init() { prng.Store(uint64(envInt("LOCKMON_SEED", 1))*0x9E3779B97F4A7C15 + 1) }
